@@ -1188,6 +1188,9 @@ func (as *AbacoSource) distributeData(buffersMsg AbacoBuffersType) *dataBlock {
 	block := new(dataBlock)
 	nchan := len(datacopies)
 	block.segments = make([]DataSegment, nchan)
+	// Every channel holds framesUsed samples. Set the block's sample count once, here: the per-channel
+	// goroutines below must not all write the same field of the block (a data race).
+	block.nSamp = framesUsed
 
 	// Here we find external triggers from the queue of relevant packets
 	externalTriggers := as.extractExternalTriggers()
@@ -1209,7 +1212,6 @@ func (as *AbacoSource) distributeData(buffersMsg AbacoBuffersType) *dataBlock {
 				droppedFrames:   buffersMsg.droppedFrames,
 			}
 			block.segments[channelIndex] = seg
-			block.nSamp = len(data)
 		}(channelIndex)
 	}
 	wg.Wait()
